@@ -104,6 +104,8 @@ structure Tables where
   igs : List (Ident × List Item)
   /-- number of table keys that are not the canonical rendering of an identity (unreachable definitions) -/
   badKeys : Nat
+  /-- number of RTCM_DATA_FIELDS entries the translator could not represent -/
+  badFields : Nat
   /-- RTCM_MSGIDS: identity, description contains "MSM" -/
   msgids : List (Ident × Bool)
   /-- PRNSIGMAP: 3-digit key, prn map, signal map (band label, RINEX code) -/
